@@ -155,7 +155,9 @@ def render_deps(n, path, key):
         if d.get("gap"):
             opts.append(f"gapduration {fmt_gap(d['gap'])}")
         if d.get("gaplen"):
-            opts.append(f"gaplength {fmt_dur(d['gaplen'])}")
+            # working time; with 'gaplen_days' written in days of 8 working hours ("1d"), the same text that a
+            # gapduration of 24 hours has
+            opts.append(f"gaplength {d['gaplen'] // 480}d" if d.get("gaplen_days") and d["gaplen"] % 480 == 0 else f"gaplength {fmt_dur(d['gaplen'])}")
         if d.get("maxgap"):
             opts.append(f"maxgapduration {fmt_gap(d['maxgap'])}")
         if d.get("onstart"):
@@ -434,9 +436,29 @@ class NotCore(Exception):
     pass
 
 
+def effective_attr(ap, n, key, sc_id):
+    """the value of a scenario-specific attribute in scenario sc_id: written for that scenario, else for its nearest
+    enclosing scenario (ap['scen_parent']: scenario id -> parent id), else the plain value"""
+    par = ap.get("scen_parent") or {}
+    s = sc_id
+    while s is not None:
+        vals = [v for (sc, k, v) in n.get("sc_attrs", []) if sc == s and k == key]
+        if vals:
+            return vals[-1]
+        s = par.get(s)
+    return n.get(key)
+
+
+def has_maxgap(ap):
+    """an edge with a maximum gap: the predecessor may be delayed (best effort) - outside every model dialect"""
+    return any(d.get("maxgap") for _, n in walk(ap["tasks"]) for key in ("deps", "precedes") for d in (n.get(key) or []))
+
+
 def encode_core(ap, obs_end):
     """flat-integer encoding of a core-dialect project for ocaml/scheddriver.ml ('sched ...').
     Raises NotCore when the project leaves the dialect of Model/Sched.v."""
+    if has_maxgap(ap):
+        raise NotCore("maxgapduration")
     G = ap.get("G", 3600)
     S = ap["start"]
     backward = bool(ap.get("alap"))          # read backwards by Model/Alap.v ('alap ...' line)
@@ -643,6 +665,8 @@ def encode_sd(ap, obs_end):
     and containers included -, 'sdt ...' (Model/SubSlotTeam.v) when there are teams (limits included as well).
     Efforts, efficiencies and gaps are arbitrary (exact rationals).  Raises NotCore outside that dialect."""
     from fractions import Fraction
+    if has_maxgap(ap):
+        raise NotCore("maxgapduration")
     G = ap.get("G", 3600)
     S = ap["start"]
     if ap.get("alap") or S % G:
